@@ -26,7 +26,9 @@ AKINDS = ["true", "true", "true", "false", "non-tuple", "missing-ok", "non-bool-
           # the assertion sits in a module body; the module is instantiated by a statement, below a function call, or in
           # the callback of map / filter / reduce (a table-driven test)
           "module-direct-true", "module-direct-false", "module-in-func-true", "module-in-func-false", "module-in-map", "module-in-filter", "module-in-reduce",
-          "module-in-map-all-true", "module-in-nested-func-false"]
+          "module-in-map-all-true", "module-in-nested-func-false",
+          # desc is NULL (literally, or arriving through a function): not a string, so a failure whatever ok says
+          "null-desc", "null-desc-computed", "null-ok", "list-desc"]
 
 
 HELPER_IMPORT = "let helper = import \"helper.ucg\";\n"
@@ -117,6 +119,18 @@ def gen_file(r, fid, helper=None):
                 lines.append("let r%d = reduce(func (acc, c) => acc + [runchk(c.b, c.d)], [], %s);\n" % (i, lst))
             else:
                 lines.append("let r%d = map(func (c) => chk{b = c.b, d = c.d}, %s);\n" % (i, lst))
+        elif k == "null-desc":
+            lines.append("assert {ok = true, desc = NULL};\n")
+            malformed += 1
+        elif k == "null-desc-computed":
+            lines.append("assert mk(seven == 7, {d = NULL}.d);\n")
+            malformed += 1
+        elif k == "null-ok":
+            lines.append("assert mk({d = NULL}.d, \"%s\");\n" % aid)
+            malformed += 1
+        elif k == "list-desc":
+            lines.append("assert mk(true, [\"%s\"]);\n" % aid)
+            malformed += 1
         elif k == "non-tuple":
             lines.append("assert seven;\n")
             malformed += 1
